@@ -1312,7 +1312,10 @@ func (s *Service) queuedExecute(w http.ResponseWriter, r *http.Request, qp Query
 
 	stmts, err := ParseRequest(r.Body)
 	if err != nil {
-		if errors.Is(err, ErrNoStatements) && !qp.Wait() {
+		// An empty statement list is accepted only as a "checkpoint" that a client
+		// waits on. Any other parse error means the body is not a valid request: it
+		// must be rejected, not queued as an empty write and acknowledged.
+		if !errors.Is(err, ErrNoStatements) || !qp.Wait() {
 			http.Error(w, err.Error(), http.StatusBadRequest)
 			return
 		}
